@@ -2,6 +2,7 @@
 //! 
 //! Provides additional Redis-compatible string operations beyond basic SET/GET.
 
+use crate::storage::commands::RedisInt;
 use crate::error::{FerrousError, Result, StorageError};
 use crate::protocol::RespFrame;
 use crate::storage::StorageEngine;
@@ -12,7 +13,7 @@ use std::time::Duration;
 /// seconds (`unit_millis` = 1000) or milliseconds (`unit_millis` = 1) that fits the 64-bit
 /// millisecond clock. Zero, negative, non-integer and out-of-range values are refused.
 pub fn parse_expire_time(bytes: &[u8], unit_millis: i64) -> Option<Duration> {
-    let n = std::str::from_utf8(bytes).ok()?.parse::<i64>().ok()?;
+    let n = std::str::from_utf8(bytes).ok()?.parse_redis::<i64>().ok()?;
     if n <= 0 {
         return None;
     }
@@ -162,7 +163,7 @@ pub fn handle_getrange(storage: &Arc<StorageEngine>, db: usize, parts: &[RespFra
     
     let start = match &parts[2] {
         RespFrame::BulkString(Some(bytes)) => {
-            match String::from_utf8_lossy(bytes).parse::<isize>() {
+            match String::from_utf8_lossy(bytes).parse_redis::<isize>() {
                 Ok(n) => n,
                 Err(_) => return Ok(RespFrame::error("ERR value is not an integer or out of range")),
             }
@@ -172,7 +173,7 @@ pub fn handle_getrange(storage: &Arc<StorageEngine>, db: usize, parts: &[RespFra
     
     let end = match &parts[3] {
         RespFrame::BulkString(Some(bytes)) => {
-            match String::from_utf8_lossy(bytes).parse::<isize>() {
+            match String::from_utf8_lossy(bytes).parse_redis::<isize>() {
                 Ok(n) => n,
                 Err(_) => return Ok(RespFrame::error("ERR value is not an integer or out of range")),
             }
@@ -206,7 +207,7 @@ pub fn handle_setrange(storage: &Arc<StorageEngine>, db: usize, parts: &[RespFra
     let offset = match &parts[2] {
         RespFrame::BulkString(Some(bytes)) => {
             // An offset is a non-negative 64-bit signed integer, as every other integer argument
-            match String::from_utf8_lossy(bytes).parse::<i64>() {
+            match String::from_utf8_lossy(bytes).parse_redis::<i64>() {
                 Ok(n) if n >= 0 => n as usize,
                 _ => return Ok(RespFrame::error("ERR value is not an integer or out of range")),
             }
@@ -315,7 +316,7 @@ pub fn handle_pexpire(storage: &Arc<StorageEngine>, db: usize, parts: &[RespFram
     
     let milliseconds = match &parts[2] {
         RespFrame::BulkString(Some(bytes)) => {
-            match String::from_utf8_lossy(bytes).parse::<i64>() {
+            match String::from_utf8_lossy(bytes).parse_redis::<i64>() {
                 Ok(n) => n,
                 Err(_) => return Ok(RespFrame::error("ERR value is not an integer or out of range")),
             }
